@@ -1,6 +1,7 @@
 -- Root of the `LA` library: generated tables, executable models, property theorems.
 import LA.Model.Util
 import LA.Props.C01
+import LA.Props.C04
 import LA.Props.C05
 import LA.Props.C06
 import LA.Props.C08
